@@ -34,10 +34,12 @@ package pki
 import (
 	"bytes"
 	"context"
+	"crypto"
 	"crypto/ecdsa"
 	"crypto/ed25519"
 	"crypto/elliptic"
 	"crypto/rand"
+	"crypto/sha256"
 	"crypto/x509"
 	"crypto/x509/pkix"
 	"encoding/asn1"
@@ -104,7 +106,7 @@ type c16Ext struct {
 	// coverage
 	nRotateDelta, nRotateDeltaFault, nPeriodicElapsed, nDeltaCarried, nConfigDelta                            int
 	nKeyOK, nKeyWrong, nForeign, nOrphan, nOrphanViaTwin, nExpiredRevoke, nTidyExt, nTidyUnexpired, nAutoTidy int
-	nRevokeUnderDelta, nDeltaObserved, nTwinRevoked, nDeltaTidyHit, nDeltaRetryHit, nTidiedExpiredInWAL       int
+	nRevokeUnderDelta, nDeltaObserved, nTwinRevoked, nDeltaTidyHit, nDeltaRetryHit, nTidiedExpiredInWAL, nRenewedTwin int
 
 	// lease revocations; cross-signed roots of other mounts
 	nLeaseIssued, nLeaseRevoke, nLeaseRevokeAgain, nLeaseRevokeRestart, nLeaseRevokeRestartMust                                                                   int
@@ -136,10 +138,16 @@ func (s *c16Sys) addTwin() {
 		s.rt.Fatalf("harness: reading issuer i0: %v", err)
 	}
 	keyID := fmt.Sprint(r.Data["key_id"])
-	resp := s.mustWrite("twin root", "root/generate/existing", map[string]any{"common_name": "verif root i0", "key_ref": keyID, "issuer_name": "i0x", "ttl": "8760h"})
-	c, err := vxParseCertPEM(vxStr(resp.Data, "certificate"))
-	if err != nil {
-		s.rt.Fatalf("harness: %v", err)
+	var c *x509.Certificate
+	if rapid.Bool().Draw(s.rt, "twinRenewedElsewhere") {
+		// the CA certificate was renewed by another tool with the same key and subject: RFC 5280 leaves the method
+		// that derives the subject key identifier open, so the renewed certificate carries a different one
+		c = s.renewedTwin(keyID)
+	} else {
+		resp := s.mustWrite("twin root", "root/generate/existing", map[string]any{"common_name": "verif root i0", "key_ref": keyID, "issuer_name": "i0x", "ttl": "8760h"})
+		if c, err = vxParseCertPEM(vxStr(resp.Data, "certificate")); err != nil {
+			s.rt.Fatalf("harness: %v", err)
+		}
 	}
 	if !bytes.Equal(c.RawSubject, s.issuerCert["i0"].RawSubject) || !bytes.Equal(c.RawSubjectPublicKeyInfo, s.issuerCert["i0"].RawSubjectPublicKeyInfo) {
 		s.rt.Fatalf("harness: the twin issuer does not share subject and key with i0")
@@ -149,6 +157,60 @@ func (s *c16Sys) addTwin() {
 	x := s.ext()
 	x.twin["i0"], x.twin["i0x"] = "i0x", "i0"
 	s.logf("twin issuer i0x (same key and subject as i0)")
+}
+
+// renewedTwin signs, with the key of i0 taken from the mount's storage, a second self-signed certificate with the
+// subject of i0 and a subject key identifier of its own, and imports it as issuer i0x.
+func (s *c16Sys) renewedTwin(kid string) *x509.Certificate {
+	ke, err := s.b.makeStorageContext(context.Background(), s.fs).fetchKeyById(keyID(kid))
+	if err != nil || ke == nil {
+		s.rt.Fatalf("harness: key of i0: %v", err)
+	}
+	blk, _ := pem.Decode([]byte(ke.PrivateKey))
+	if blk == nil {
+		s.rt.Fatalf("harness: key of i0 is not PEM")
+	}
+	var signer crypto.Signer
+	if k, err := x509.ParsePKCS8PrivateKey(blk.Bytes); err == nil {
+		signer, _ = k.(crypto.Signer)
+	} else if k, err := x509.ParseECPrivateKey(blk.Bytes); err == nil {
+		signer = k
+	}
+	if signer == nil {
+		s.rt.Fatalf("harness: cannot parse the key of i0 (%s)", blk.Type)
+	}
+	old := s.issuerCert["i0"]
+	skid := sha256.Sum256(old.RawSubjectPublicKeyInfo)
+	tmpl := &x509.Certificate{
+		SerialNumber:          new(big.Int).SetBytes(skid[8:24]),
+		RawSubject:            old.RawSubject,
+		NotBefore:             time.Now().Add(-time.Minute),
+		NotAfter:              time.Now().Add(8760 * time.Hour),
+		KeyUsage:              x509.KeyUsageCertSign | x509.KeyUsageCRLSign,
+		BasicConstraintsValid: true,
+		IsCA:                  true,
+		SubjectKeyId:          skid[:20],
+	}
+	der, err := x509.CreateCertificate(rand.Reader, tmpl, tmpl, signer.Public(), signer)
+	if err != nil {
+		s.rt.Fatalf("harness: renewing i0: %v", err)
+	}
+	c, err := x509.ParseCertificate(der)
+	if err != nil || bytes.Equal(c.SubjectKeyId, old.SubjectKeyId) {
+		s.rt.Fatalf("harness: renewed certificate: %v", err)
+	}
+	resp := s.mustWrite("renewed twin", "issuers/import/cert", map[string]any{"pem_bundle": vxCertPEM(c)})
+	ids, _ := resp.Data["imported_issuers"].([]string)
+	if len(ids) != 1 {
+		s.rt.Fatalf("harness: import of the renewed twin: %v", resp.Data)
+	}
+	s.mustWrite("renewed twin name", "issuer/"+ids[0], map[string]any{"issuer_name": "i0x"})
+	if r, err := s.read("issuer/i0x"); err != nil || r == nil || fmt.Sprint(r.Data["key_id"]) != kid {
+		s.rt.Fatalf("harness: the renewed twin is not bound to the key of i0 (err=%v)", err)
+	}
+	s.ext().nRenewedTwin++
+	s.logf("i0 renewed elsewhere: same key and subject, other subject key identifier")
+	return c
 }
 
 func (s *c16Sys) forgetDelta(name string) {
@@ -1231,6 +1293,7 @@ func (s *c16Sys) extClasses() {
 		}
 	}
 	one("twin-issuer", len(x.twin))
+	one("twin-issuer-renewed-with-other-skid", x.nRenewedTwin)
 	one("twin-revocation", x.nTwinRevoked)
 	one("delta-config", x.nConfigDelta)
 	one("revocation-under-delta", x.nRevokeUnderDelta)
